@@ -53,6 +53,20 @@ G = TypeVar("G")
 E = TypeVar("E", bound=Exception)
 
 
+_COMPLETION_ERRORS = (CoercionError, ResolverError)
+
+
+def _identity(value: T) -> T:
+    return value
+
+
+class _FailedItem:
+    __slots__ = ("error",)
+
+    def __init__(self, error: Exception):
+        self.error = error
+
+
 class Executor(ResolutionContext):
     """
     Core executor class.
@@ -157,6 +171,14 @@ class Executor(ResolutionContext):
             parent_value, self.context_value, info
         )
 
+        field_type = field_definition.type
+        is_list = isinstance(
+            field_type.type
+            if isinstance(field_type, NonNullType)
+            else field_type,
+            ListType,
+        )
+
         def fail(err):
             self.add_error(err, path, node)
             self.instrumentation.on_field_end(
@@ -168,17 +190,30 @@ class Executor(ResolutionContext):
             self.instrumentation.on_field_end(
                 parent_value, self.context_value, info
             )
-            try:
-                return self.complete_value(
-                    field_definition.type, nodes, path, info, res
-                )
-            except (CoercionError, ResolverError) as err:
-                # Raised while completing the value (e.g. by `resolve_type`,
-                # or by invalid `@skip` / `@include` arguments in the
-                # sub-selection): the field has already ended, `fail` must
-                # not end it again.
+            # Errors raised while completing the value (e.g. by `resolve_type`,
+            # or by invalid `@skip` / `@include` arguments in the
+            # sub-selection): the field has already ended, `fail` must
+            # not end it again.
+            def fail_completion(err):
                 self.add_error(err, path, node)
                 return None
+
+            try:
+                completed = self.complete_value(
+                    field_definition.type, nodes, path, info, res
+                )
+            except _COMPLETION_ERRORS as err:
+                return fail_completion(err)
+
+            if is_list:
+                # List items can fail after deferred items have finished.
+                return self.runtime.map_value(
+                    completed,
+                    _identity,
+                    else_=(_COMPLETION_ERRORS, fail_completion),
+                )
+
+            return completed
 
         try:
             coerced_args = self.argument_values(field_definition, node)
@@ -274,10 +309,48 @@ class Executor(ResolutionContext):
         info: ResolveInfo,
         resolved_value: Any,
     ) -> Any:
-        return self.runtime.gather_values(
-            self.complete_value(inner_type, nodes, path + [index], info, entry)
-            for index, entry in enumerate(resolved_value)
+        # An item which cannot be completed fails the whole field, but only
+        # once the items started before it are done: their (possibly deferred)
+        # resolvers must not outlive the field.
+        nested = isinstance(
+            inner_type.type
+            if isinstance(inner_type, NonNullType)
+            else inner_type,
+            ListType,
         )
+        items = []  # type: List[Any]
+        failure = None  # type: Optional[Exception]
+
+        for index, entry in enumerate(resolved_value):
+            try:
+                item = self.complete_value(
+                    inner_type, nodes, path + [index], info, entry
+                )
+            except _COMPLETION_ERRORS as err:
+                failure = err
+                break
+
+            if nested:
+                item = self.runtime.map_value(
+                    item, _identity, else_=(_COMPLETION_ERRORS, _FailedItem)
+                )
+
+            items.append(item)
+
+        gathered = self.runtime.gather_values(items)
+
+        if failure is None and not nested:
+            return gathered
+
+        def _finish(done):
+            for entry in done:
+                if isinstance(entry, _FailedItem):
+                    raise entry.error
+            if failure is not None:
+                raise failure
+            return done
+
+        return self.runtime.map_value(gathered, _finish)
 
     def complete_non_nullable_value(
         self,
